@@ -42,6 +42,13 @@ class StartStagePlannerMixin:
             branch_outputs = [u.outputs for u in upstreams if u is not None and u.outputs]
             ancestor_outputs.update(apply_output_reducers(reducers, branch_outputs))
 
+        # Values inherited from ancestors at an earlier planning of this stage
+        # (previous loop iteration, operator restart) are not the stage's own:
+        # drop them so the fresh ancestor outputs win instead of the stale copy.
+        for key in stage.context.pop("_inherited_keys", None) or []:
+            stage.context.pop(key, None)
+        inherited_keys = sorted(k for k in ancestor_outputs if k not in stage.context)
+
         merged = ancestor_outputs
         for key, value in stage.context.items():
             if key in reducers:
@@ -58,6 +65,8 @@ class StartStagePlannerMixin:
                 merged[key] = value
 
         stage.context = merged
+        if inherited_keys:
+            stage.context["_inherited_keys"] = inherited_keys
 
         # Get builder
         builder = get_default_factory().get(stage.type)
